@@ -10,7 +10,7 @@ import numpy as np
 
 import impl
 
-RULE = ("random solved models: 1-4 base pins, with and without mode names (1-2 modes), non-symmetric complex matrices "
+RULE = ("random solved models: 1-4 base pins, with and without mode names (1-3 modes), non-symmetric complex matrices "
         "with exact zeros, one parameter with 2-6 points or two parameters on a 2x2..3x3 grid, awkward floats (decimal "
         "fractions, sums like 0.1+0.2, neighbours of powers of two, many digits), optional renaming of parameters on "
         "export and back on import, optional mode mapping (select / rename / map to no mode); every exported point is "
@@ -39,7 +39,7 @@ def gen_case(rng):
     L = impl.lk()
     nb = rng.randint(1, 4)
     moded = rng.random() < 0.5
-    modes = rng.sample(["TE", "TM"], rng.randint(1, 2)) if moded else [None]
+    modes = rng.sample(["TE", "TM", "HE"], rng.randint(1, 3)) if moded else [None]
     pins = [(f"p{k}", m) for k in range(nb) for m in modes]
     n = len(pins)
     two = rng.random() < 0.3
@@ -78,7 +78,12 @@ def gen_case(rng):
     if rng.random() < 0.4:
         if moded:
             keep = rng.sample(modes, rng.randint(1, len(modes)))
-            mm = {m: rng.choice([m, m + "x", ""]) if len(keep) == 1 else rng.choice([m, m + "x"]) for m in keep}
+            if len(keep) == 1:
+                mm = {keep[0]: rng.choice([keep[0], keep[0] + "x", "", "TE", "TM"])}
+            else:
+                # injective renaming whose targets may be other *source* names: swaps, cycles and chains included
+                pool = ["TE", "TM", "HE", "X", "Y"]
+                mm = dict(zip(keep, rng.sample(pool, len(keep))))
         else:
             mm = {"": rng.choice(["", "TE"])}
     return {"pins": pins, "idx": idx, "params": {k: [float(x) for x in v] for k, v in params.items()},
